@@ -1,0 +1,13 @@
+// Copyright 2026 The Go Authors. All rights reserved.
+// Use of this source code is governed by a BSD-style
+// license that can be found in the LICENSE file.
+
+//go:build !verif
+
+// Package verifhook provides named observation points for the runtime
+// monitors under /verif. Without the "verif" build tag every function is
+// an empty, inlinable no-op.
+package verifhook
+
+// Point marks that execution reached the named site.
+func Point(site string) {}
